@@ -50,22 +50,20 @@ def run(ctx, rep):
                 t = type_node(facts, "arg.arg_type", kind)
                 arg = struct_val(facts, "ast::Arg", "arg", {"arg_type": t, "direction": dval})
                 meth = struct_val(facts, "ast::Method", "method", {"oneway": Const("bool", oneway)})
-                m = Machine(facts, on_next=lambda il, arg=arg: Ref(Cell(arg)))
+                m = Machine(facts, on_next=lambda il, arg=arg: Ref(Cell(arg)), loop_once=True)
                 try:
                     paths = m.run("validation::check_method_args", [Ref(Cell(meth)), sym_ref("diagnostics", mut=True)])
                 except Unsupported as e:
                     rep.fail("T2", "C07|T2|unsupported", cfg.where(fn_arg), "tabulator cannot interpret check_method_args: %s" % e)
                     return
-                body_paths = [p for p in paths if p.exit == "loop_back"]
-                exit_paths = [p for p in paths if p.exit == "return"]
                 cellkey = "%s|%s|oneway=%s" % (cname, dname, oneway)
-                if len(body_paths) != 1 or len(exit_paths) != 1 or len(paths) != 2:
+                # one generic argument is pushed through the per-argument code (for loop or for_each alike)
+                iters = [e for pth in paths for e in pth.effects if e[0] in ("next", "iterate") and "method.args" in fmt_label(e[1:3])]
+                if len(paths) != 1 or paths[0].exit != "return" or not iters:
                     rep.fail("T2", "C07|T2|%s|paths" % cellkey, cfg.where(fn_arg),
-                             "expected exactly one path through the loop body and one loop exit for a concrete cell, got %r" % ([p.exit for p in paths],))
+                             "expected exactly one path through the per-argument code for a concrete cell (iterating method.args), got %r" % ([p.exit for p in paths],))
                     continue
-                p = body_paths[0]
-                if exit_paths[0].effects:
-                    rep.fail("T2", "C07|T2|%s|exit-effects" % cellkey, cfg.where(fn_arg), "effects outside the per-argument loop: %r" % (exit_paths[0].effects,))
+                p = paths[0]
                 other = only_pushes(p)
                 diags = [diag_of(e) for e in p.pushes("diagnostics")]
                 exp_type = (dname in sp["broken_when"][cls]) if cls != "unstated" else None
